@@ -272,7 +272,7 @@ namespace c11
     double x, y;
     if(jnum(a, x) && jnum(b, y))
     {
-      double tol = 5.0001e-6 * std::max(std::fabs(x), std::fabs(y)) + abs_tol;
+      double tol = 5.0001e-6 * std::max(std::fabs(x), std::fabs(y)) + abs_tol + 1e-300;   // 1e-300: subnormal inputs lose digits when read back
       if(!(std::fabs(x - y) <= tol)) { char buf[160]; snprintf(buf, sizeof buf, ": %.17g vs %.17g (tol %.3g)", x, y, tol); why = path + buf; return false; }
       return true;
     }
@@ -341,7 +341,9 @@ namespace c11
             constexpr int d = decltype(dc)::value;
             const auto& is = p->template get_index_set<d, 0>();
             if(is.get_num_entities() != p->get_num_entities(d)) weird("part topology lists entities of a dimension the part does not declare (faces missing from the part)");
-            for(Index i = 0; i < is.get_num_entities(); ++i) for(int k = 0; k < is.num_indices; ++k) if(is[i][k] >= pnv) range("part '" + nm + "' topology vertex index >= part vertex count");
+            // indices in a <Topology> of a part are bound-checked by the reader; pnv+1 is the marker deduct_topology() leaves for
+            // "vertex of a listed entity is not among the part's vertices" (topology="parent" with an incomplete vertex mapping)
+            for(Index i = 0; i < is.get_num_entities(); ++i) for(int k = 0; k < is.num_indices; ++k) if(is[i][k] >= pnv) { if(is[i][k] == pnv + 1) weird("part entity refers to a parent vertex that is not mapped"); else range("part '" + nm + "' topology vertex index >= part vertex count"); }
           });
         for(const auto& kv : p->get_mesh_attributes())
         {
@@ -362,6 +364,7 @@ namespace c11
           if(vp->a.size() < 2) range("bezier '" + kv.first + "' has " + std::to_string(vp->a.size()) + " points (declared size >= 2)");
           else if(!pa->a.empty() && pa->a.size() != vp->a.size()) range("bezier '" + kv.first + "' param count " + std::to_string(pa->a.size()) + " != point count " + std::to_string(vp->a.size()));
           for(auto& x : vp->a) if((size_t)x.i >= w->a.size()) range("bezier vertex pointer");
+          double ori = 0; jnum(*cc->get("orient"), ori); if(ori != 1.0 && ori != -1.0) weird("bezier orientation is neither +1 nor -1 (the writer can only express -1)");
         }
         if(ty == "surfmesh")
         {
